@@ -152,20 +152,28 @@ Theorem C20_total :
 Proof. exact conversion_total. Qed.
 Print Assumptions C20_total.
 
-(* 2a. A parameter schema that is structurally inconsistent in the sense of Spec.consistent -- no
-      details; an "array" schema without items at some dimension; a nil member; a member without a
-      position, or positions that are not exactly 0..n-1 each once (out of range, negative,
-      colliding) -- at any depth, or that is nil itself, is reported as an error (not Ok, not
-      Panic), whatever the jsonschema verdict. *)
+(* 2. Inconsistent schemas are errors.  [pin_inconsistent] (Spec.v; the oracle the correspondence
+      run applies to the implementation, code 13): the schema passed the jsonschema compile and
+      unmarshalled, and is nil, or not [consistent].  [consistent] fails when, at any depth: there
+      are no details; the JSON type is at odds with the Ethereum type of the details; an "array"
+      schema has no items at some dimension; a member is nil; a member has no position, or the
+      positions are not exactly 0..n-1 each once (negative, too large, colliding). *)
 Theorem C20_inconsistent_rejected :
+  forall p, pin_inconsistent p = true -> exists e, convertFFIParam p = Err e.
+Proof. exact inconsistent_rejected. Qed.
+Print Assumptions C20_inconsistent_rejected.
+
+(* 2b. The same whatever the jsonschema verdict says. *)
+Theorem C20_inconsistent_rejected_any_verdict :
   forall name verdict os,
     match os with None => True | Some s => consistent s = false end ->
     exists e, convertFFIParam (mkPin name verdict (Some os)) = Err e.
-Proof. exact inconsistent_structure_rejected. Qed.
-Print Assumptions C20_inconsistent_rejected.
+Proof. exact inconsistent_any_verdict_rejected. Qed.
+Print Assumptions C20_inconsistent_rejected_any_verdict.
 
-(* non-vacuity: witnesses of the defects D20a (no items) and D20b (positions 0,0) are inconsistent,
-   a well-formed tuple schema is consistent and converts *)
+(* non-vacuity: witnesses of the defects D20a (no items), D20b (positions 0,0), D20c (string against
+   an array type) and D20i (a member's JSON type boolean against uint256) are inconsistent; a
+   well-formed tuple schema is consistent and converts *)
 Example C20_inconsistent_nonvacuous :
   let det t i := Some (mkDetails (str t) [] false i) in
   let leaf i := Some (Schema (str "string") None (det "string" (Some i)) [] None) in
@@ -173,5 +181,9 @@ Example C20_inconsistent_nonvacuous :
   consistent (Schema (str "object") None (det "tuple" None) [(str "a", leaf 0%Z); (str "b", leaf 0%Z)] None) = false /\
   consistent (Schema (str "object") None (det "tuple" None) [(str "a", leaf 1%Z); (str "b", leaf 0%Z)] None) = true /\
   is_ok (convertFFIParam (mkPin (str "x") true
-     (Some (Some (Schema (str "object") None (det "tuple" None) [(str "a", leaf 1%Z); (str "b", leaf 0%Z)] None))))) = true.
+     (Some (Some (Schema (str "object") None (det "tuple" None) [(str "a", leaf 1%Z); (str "b", leaf 0%Z)] None))))) = true /\
+  pin_inconsistent (mkPin (str "x") true (Some (Some (Schema (str "string") None (det "uint256[]" None) [] None)))) = true /\
+  pin_inconsistent (mkPin (str "x") true (Some (Some (Schema (str "string") None (det "uint256" None) [] None)))) = false /\
+  consistent (Schema (str "object") None (det "tuple" None)
+                [(str "a", Some (Schema (str "boolean") None (det "uint256" (Some 0%Z)) [] None))] None) = false.
 Proof. vm_compute. repeat split. Qed.
